@@ -87,7 +87,8 @@ struct Step { Op op; int points; };
 
 template <class M> struct Traits;
 #define TRAITS(T, NAME, RW, RAW, FIFO) \
-    template <> struct Traits<T> { static constexpr bool rw = RW, raw = RAW, fifo = FIFO; static const char* name() { return NAME; } };
+    template <> struct Traits<T> { static constexpr bool rw = RW, raw = RAW, fifo = FIFO; static const char* name() { return NAME; } \
+                                   static constexpr bool sleeps = std::is_same<T, tbb::mutex>::value || std::is_same<T, tbb::rw_mutex>::value; };
 TRAITS(tbb::spin_mutex, "spin_mutex", false, true, false)
 TRAITS(tbb::queuing_mutex, "queuing_mutex", false, false, true)
 TRAITS(tbb::mutex, "mutex", false, true, false)
@@ -121,6 +122,7 @@ template <class M> auto raw_unlock(M& m, int) -> decltype(m.unlock()) { m.unlock
 template <class M> void raw_unlock(M&, long) {}
 
 bool g_upgrade_focus = false;   // c08b: reader / upgrade / downgrade chains only, longer programs
+bool g_sleep_focus = false;     // c08c: blocking acquisitions of the sleeping locks with long critical sections
 
 template <class M>
 void run_type(hx::Desc& d) {
@@ -130,6 +132,9 @@ void run_type(hx::Desc& d) {
     int nthreads = (int)sim::draw_range(2, focus ? 3 : 4, "threads");
     // generate a legal per-fiber op sequence
     std::vector<std::vector<Step>> prog(nthreads);
+    // tbb::mutex / tbb::rw_mutex put a waiter to sleep only after ~60 spin points: in two runs of three some critical
+    // sections are long enough for that, so that the sleep / wake-up protocol (wait set, futex) is really exercised
+    const bool long_holds = T::sleeps && (g_sleep_focus || sim::draw(3, "long_holds") != 0);
     for (int t = 0; t < nthreads; ++t) {
         int nops = (int)sim::draw_range(focus ? 2 : 1, focus ? 8 : 6, "nops");
         int held = 0;  // 0 none, 1 read(scoped), 2 write(scoped), 3 raw write, 4 raw read
@@ -140,6 +145,7 @@ void run_type(hx::Desc& d) {
                 std::vector<Op> c = {ACQ_W, TRY_W};
                 if (T::rw) { c.push_back(ACQ_R); c.push_back(TRY_R); c.push_back(ACQ_R); }
                 if (focus) c = {ACQ_R, ACQ_R, TRY_R, ACQ_W};
+                else if (g_sleep_focus) { c = {ACQ_W, RAW_LOCK, RAW_LOCK}; if (T::rw) { c.push_back(ACQ_R); c.push_back(RAW_LOCK_SH); } }
                 else if (T::raw) { c.push_back(RAW_LOCK); c.push_back(RAW_TRY); if (T::rw) { c.push_back(RAW_LOCK_SH); c.push_back(RAW_TRY_SH); } }
                 op = c[sim::draw(c.size(), "op")];
             } else if (held == 1) {
@@ -155,6 +161,7 @@ void run_type(hx::Desc& d) {
                 op = RAW_UNLOCK;
             }
             int pts = (int)sim::draw(4, "points");
+            if (long_holds && sim::draw(g_sleep_focus ? 2 : 3, "long") == 0) pts = (int)sim::draw_range(70, 260, "hold");
             prog[t].push_back({op, pts});
             s += hx::fmt(" %s/%d", kOpName[op], pts);
             // update symbolic state assuming success for blocking ops; try ops resolved at run time,
@@ -221,8 +228,8 @@ void run_type(hx::Desc& d) {
                     if (ok) { enter(me, wr, kOpName[op]); w_at_read = book.wsections; body(me, wr, st.points); held = wr ? 2 : 1; }
                     break;
                 }
-                case REL:
-                    if (held == 1 || held == 2) { leave(held == 2); l->release(); held = 0; }
+                case REL:   // the points of a release are work outside the critical section (no atomic operation: a buffered store of the release stays buffered)
+                    if (held == 1 || held == 2) { leave(held == 2); l->release(); held = 0; for (int i = 0; i < st.points; ++i) sim::upoint(); }
                     break;
                 case UPG:
                     if (held == 1) {
@@ -273,8 +280,8 @@ void run_type(hx::Desc& d) {
                     break;
                 }
                 case RAW_UNLOCK:
-                    if (held == 3) { leave(true); raw_unlock(*m, 0); held = 0; }
-                    else if (held == 4) { leave(false); raw_unlock_shared(*m, 0); held = 0; }
+                    if (held == 3) { leave(true); raw_unlock(*m, 0); held = 0; for (int i = 0; i < st.points; ++i) sim::upoint(); }
+                    else if (held == 4) { leave(false); raw_unlock_shared(*m, 0); held = 0; for (int i = 0; i < st.points; ++i) sim::upoint(); }
                     break;
                 }
             }
@@ -326,4 +333,17 @@ SIM_SCENARIO(scen_c08b, "c08b", "C08", 400000, 1500) {
     d.add(hx::fmt("lock=%s tso=%d upgrade-focus", names[type], (int)sim::g_cfg.tso));
     if (type == 3) run_type<tbb::spin_rw_mutex>(d); else run_type<tbb::queuing_rw_mutex>(d);
     g_upgrade_focus = false;
+}
+
+// c08c: the sleeping locks (tbb::mutex, tbb::rw_mutex): blocking acquisitions only, critical sections long enough for
+// waiters to leave their spin phase, register in the wait set and sleep; store buffers always on (the release and the
+// "is anybody waiting" test of the releasing thread against the registration and re-check of the sleeper)
+SIM_SCENARIO(scen_c08c, "c08c", "C08", 600000, 4000) {
+    hx::Desc d;
+    sim::g_cfg.tso = sim::draw(4, "tso") != 0;
+    bool rw = sim::draw_bool("rw");
+    g_sleep_focus = true;
+    d.add(hx::fmt("lock=%s tso=%d sleep-focus", rw ? "rw_mutex" : "mutex", (int)sim::g_cfg.tso));
+    if (rw) run_type<tbb::rw_mutex>(d); else run_type<tbb::mutex>(d);
+    g_sleep_focus = false;
 }
